@@ -231,6 +231,18 @@ func (s *stream) Open() {
 	s.streamFinishedWithCloseCh = false
 	s.streamFinishedWithEndEventCh = false
 
+	// the previous close cycle may have left a finish token behind (the last stream
+	// end and Close can both send one, wait consumes one): it belongs to that session
+	select {
+	case <-s.finishStreamWithCloseCh:
+	default:
+	}
+
+	select {
+	case <-s.finishStreamWithEndEventCh:
+	default:
+	}
+
 	s.eventHandler.BeforeStreamStart()
 
 	vbIDs := s.vBucketDiscovery.Get()
